@@ -37,7 +37,7 @@ let () =
              | None -> "oracle=fail@unparsable"
              | Some o -> if oracle_err cls name kd tx o then "oracle=ok" else "oracle=fail@error-mapping")) in
       Printf.printf "%s | %s\n" m v
-    | ["conn"; c] ->
+    | "conn" :: c :: _ ->   (* further tokens: handler-supplied header fields; the close rule does not depend on them *)
       let code = n_of_int (int_of_string c) in
       let cl = in_close_range close_lo close_hi code in
       let m = c ^ " " ^ b01 cl ^ " " ^ b01 cl in
